@@ -23,7 +23,9 @@ ASSUMPTIONS = ['only the `abilint --diff` sentence of C03 is decided; whether a 
 
 def tmpl(doc, diff):
     argv = ['abilint'] + (['--diff'] if diff else []) + [doc]
-    return {'argv': argv, 'simf': {'objects': [{'prefix': TMP_PREFIX}], 'faults': [], 'helper': 1}}
+    # private_tmp: abilint hard-codes /tmp; each run gets a mount namespace with a /tmp of its own, so that the only other
+    # process it can meet there is the simulated second party, never another run of this check executing in parallel
+    return {'argv': argv, 'private_tmp': 1, 'simf': {'objects': [{'prefix': TMP_PREFIX}], 'faults': [], 'helper': 1}}
 
 
 def make_items(ctx, only=None):
@@ -185,7 +187,7 @@ def execute(ctx, it, params):
                         info={'exit': o.exit, 'twin_exit': twin_exit, 'document_is_fixpoint': it['fixpoint'], 'twin': tw}, io_events=sf.get('io_events', 0), outcome=o.status_key())
     key = ('%s:%s' % (verdict[0], 'fault-free' if not illegal and not any(firedv) else 'short-writes' if not illegal else fl[0]['op'] + '-error')) if verdict else None
     return F.Result(verdict, key, fired, sites, digest=(o.exit, o.signal, sf.get('io_hash') if not tw else twin_exit),
-                    info={'exit': o.exit, 'twin': tw, 'twin_exit': twin_exit, 'document_is_fixpoint': it['fixpoint'], 'bytes_in_temp_file_when_diff_started': sf.get('bytes_at_system', [0])[0],
+                    info={'exit': o.exit, 'private_tmp': o.res.get('private_tmp'), 'twin': tw, 'twin_exit': twin_exit, 'document_is_fixpoint': it['fixpoint'], 'bytes_in_temp_file_when_diff_started': sf.get('bytes_at_system', [0])[0],
                           'bytes_written_to_temp_file': ob.get('bytes_w'), 'flushed_before_diff': flushed},
                     io_events=sf.get('io_events', 0), outcome=o.status_key())
 
@@ -205,6 +207,8 @@ def describe(ctx, cov, items, plans, results):
                    'the temporary file; distinct = distinct (document, operation, fault kind, k) at which a fault fired, plus one per document for the fault-free run')
     cov['documents'] = {n: {'fixpoint': it['fixpoint'], 'diff_exit_fault_free': it['diff_exit'], 'temp_file_write_calls': it['W'],
                             'temp_bytes': it['tmp_bytes'], 'bytes_in_temp_file_when_diff_started': it['bytes_at_system']} for n, it in items.items()}
+    cov['isolation'] = {'runs_in_a_mount_namespace_with_a_private_tmp': sum(1 for r in results if r.info.get('private_tmp') == 1),
+                        'runs_where_unshare_or_mount_was_refused_and_the_real_tmp_was_used': sum(1 for r in results if r.info.get('private_tmp') == -1)}
     cov['probes'] = {'documents_that_are_fixpoints': sum(1 for it in items.values() if it['fixpoint']),
                      'documents_that_are_not': sum(1 for it in items.values() if not it['fixpoint']),
                      'runs_where_diff_started_before_all_bytes_were_written': sum(1 for r in results if not r.info.get('flushed_before_diff', True))}
